@@ -765,6 +765,45 @@ Qed.
 
 End Sound.
 
+(* ---- export calls and histories ---- *)
+Lemma list_eqb_refl l : list_eqb l l = true.
+Proof. induction l as [|x l IH]; cbn; [reflexivity|]. rewrite Z.eqb_refl. exact IH. Qed.
+
+Lemma prefixb_refl l : prefixb l l = true.
+Proof. unfold prefixb. rewrite firstn_all. apply list_eqb_refl. Qed.
+
+Definition drv_inst (fa : nat) : inst := {| i_funcs := [fa]; i_globals := []; i_mem := None; i_tab := None; i_types := [] |}.
+Definition with_insts (s : store Spec) (l : list inst) : store Spec :=
+  {| s_funcs := s_funcs s; s_insts := l; s_globals := s_globals s; s_mems := s_mems s; s_tabs := s_tabs s; s_log := s_log s |}.
+
+Lemma func_okb_app T insts extra fd : func_okb T insts fd = true -> func_okb T (insts ++ extra) fd = true.
+Proof.
+  destruct fd as [gi tp tr tl body|h tp tr]; cbn [func_okb]; [|auto].
+  rewrite !andb_true_iff. intros ((((H1 & H2) & H3) & H4) & H5). apply Nat.ltb_lt in H1.
+  splits; auto.
+  - apply Nat.ltb_lt. rewrite app_length. lia.
+  - rewrite app_nth1 by exact H1. exact H5.
+Qed.
+
+Lemma store_ok_drv T s fa fd : store_ok T s -> nth_error (t_funcs T) fa = Some fd ->
+  store_ok T (with_insts s (s_insts s ++ [drv_inst fa])).
+Proof.
+  intros [Hf Hb] Hn. split; [exact Hf|]. apply store_okb_iff in Hb. apply store_okb_iff. cbn [with_insts s_insts s_tabs s_globals s_mems].
+  destruct Hb as (H1 & H2 & H3 & H4 & H5 & H6 & H7). splits; auto.
+  - rewrite forallb_forall in *. intros x Hx. apply func_okb_app. apply H1. exact Hx.
+  - rewrite forallb_app, H7. cbn [andb forallb]. rewrite andb_true_r.
+    unfold inst_okb, drv_inst. cbn [i_funcs i_globals i_mem i_tab i_types forallb]. rewrite !andb_true_r.
+    apply Nat.ltb_lt. apply nth_error_Some. congruence.
+Qed.
+
+Lemma store_ok_strip T s s' : store_ok T s -> store_ok T s' -> s_tabs s' = s_tabs s ->
+  store_ok T (with_insts s' (s_insts s)).
+Proof.
+  intros [_ Hb] [Hf' Hb'] Ht. split; [exact Hf'|]. apply store_okb_iff in Hb, Hb'. apply store_okb_iff.
+  cbn [with_insts s_insts s_tabs s_globals s_mems]. rewrite Ht. tauto.
+Qed.
+
+
 (* ================================================================ the unary statements (domain Spec) *)
 Section Unary.
 Variable host : nat -> list Z -> hostres Z.
@@ -795,44 +834,6 @@ Proof.
   rewrite E in H. cbn in H. destruct H as [_ H]. apply H. reflexivity.
 Qed.
 
-(* ---- export calls and histories ---- *)
-Lemma list_eqb_refl l : list_eqb l l = true.
-Proof. induction l as [|x l IH]; cbn; [reflexivity|]. rewrite Z.eqb_refl. exact IH. Qed.
-
-Lemma prefixb_refl l : prefixb l l = true.
-Proof. unfold prefixb. rewrite firstn_all. apply list_eqb_refl. Qed.
-
-Definition drv_inst (fa : nat) : inst := {| i_funcs := [fa]; i_globals := []; i_mem := None; i_tab := None; i_types := [] |}.
-Definition with_insts (s : store Spec) (l : list inst) : store Spec :=
-  {| s_funcs := s_funcs s; s_insts := l; s_globals := s_globals s; s_mems := s_mems s; s_tabs := s_tabs s; s_log := s_log s |}.
-
-Lemma func_okb_app insts extra fd : func_okb T insts fd = true -> func_okb T (insts ++ extra) fd = true.
-Proof.
-  destruct fd as [gi tp tr tl body|h tp tr]; cbn [func_okb]; [|auto].
-  rewrite !andb_true_iff. intros ((((H1 & H2) & H3) & H4) & H5). apply Nat.ltb_lt in H1.
-  splits; auto.
-  - apply Nat.ltb_lt. rewrite app_length. lia.
-  - rewrite app_nth1 by exact H1. exact H5.
-Qed.
-
-Lemma store_ok_drv s fa fd : store_ok T s -> nth_error (t_funcs T) fa = Some fd ->
-  store_ok T (with_insts s (s_insts s ++ [drv_inst fa])).
-Proof.
-  intros [Hf Hb] Hn. split; [exact Hf|]. apply store_okb_iff in Hb. apply store_okb_iff. cbn [with_insts s_insts s_tabs s_globals s_mems].
-  destruct Hb as (H1 & H2 & H3 & H4 & H5 & H6 & H7). splits; auto.
-  - rewrite forallb_forall in *. intros x Hx. apply func_okb_app. apply H1. exact Hx.
-  - rewrite forallb_app, H7. cbn [andb forallb]. rewrite andb_true_r.
-    unfold inst_okb, drv_inst. cbn [i_funcs i_globals i_mem i_tab i_types forallb]. rewrite !andb_true_r.
-    apply Nat.ltb_lt. apply nth_error_Some. congruence.
-Qed.
-
-Lemma store_ok_strip s s' : store_ok T s -> store_ok T s' -> s_tabs s' = s_tabs s ->
-  store_ok T (with_insts s' (s_insts s)).
-Proof.
-  intros [_ Hb] [Hf' Hb'] Ht. split; [exact Hf'|]. apply store_okb_iff in Hb, Hb'. apply store_okb_iff.
-  cbn [with_insts s_insts s_tabs s_globals s_mems]. rewrite Ht. tauto.
-Qed.
-
 Definition result_ok (tr : list Z) (r : result Spec) : Prop :=
   match r with RVals vs => Forall2 wfv tr vs | RTrap t => t <> TStuck | RFuel => True end.
 
@@ -843,7 +844,7 @@ Theorem call_export_typed fuel s fa fd args :
 Proof.
   intros Hs Hn Ha. destruct (store_ok_func T s fa fd Hs Hn) as [Ef _].
   set (tp := fst (tsig fd)) in *. set (tr := snd (tsig fd)) in *.
-  pose proof (store_ok_drv s fa fd Hs Hn) as Hs1.
+  pose proof (store_ok_drv T s fa fd Hs Hn) as Hs1.
   set (s1 := with_insts s (s_insts s ++ [drv_inst fa])) in *.
   assert (Hme : the_inst Spec s1 (length (s_insts s)) = drv_inst fa).
   { unfold the_inst, s1. cbn [with_insts s_insts]. rewrite app_nth2 by lia. rewrite Nat.sub_diag. reflexivity. }
@@ -864,7 +865,7 @@ Proof.
             store_ok T {| s_funcs := s_funcs s'; s_insts := firstn (length (s_insts s)) (s_insts s'); s_globals := s_globals s';
                           s_mems := s_mems s'; s_tabs := s_tabs s'; s_log := s_log s' |}).
   { intros s' Hs' (_ & Hi & Ht). rewrite Hi. unfold s1. cbn [with_insts s_insts]. rewrite firstn_app_exact.
-    apply (store_ok_strip s s' Hs Hs'). rewrite Ht. reflexivity. }
+    apply (store_ok_strip T s s' Hs Hs'). rewrite Ht. reflexivity. }
   assert (Hskip : skipn (length tp) (rev tp) = []) by (apply skipn_all2; rewrite rev_length; lia).
   rewrite Hskip, app_nil_r in Ho.
   destruct fd as [gi ftp ftr tl body|h ftp ftr]; cbn [erase_func tsig fst snd] in *; subst tp tr;
@@ -897,6 +898,18 @@ Proof.
     intros E. subst x. cbn in H2. apply H2. reflexivity.
 Qed.
 End Unary.
+
+(* the driver frame of call_export: [Call 0] in the synthetic instance whose function 0 is [fa] *)
+Lemma drv_check T (s : store Spec) fa fd : nth_error (t_funcs T) fa = Some fd ->
+  check_seq T (the_inst Spec (with_insts s (s_insts s ++ [drv_inst fa])) (length (s_insts s))) [] (rev (snd (tsig fd))) []
+    [TCall 0] (STy (rev (fst (tsig fd)))) = Some (STy (rev (snd (tsig fd)))).
+Proof.
+  intros Hn.
+  assert (Hme : the_inst Spec (with_insts s (s_insts s ++ [drv_inst fa])) (length (s_insts s)) = drv_inst fa).
+  { unfold the_inst. cbn [with_insts s_insts]. rewrite app_nth2 by lia. rewrite Nat.sub_diag. reflexivity. }
+  rewrite Hme. unfold check_seq. cbn [check_seq_with check_instr drv_inst i_funcs nth_error]. rewrite Hn.
+  rewrite prefixb_refl. rewrite skipn_all2 by (rewrite rev_length; lia). rewrite app_nil_r. reflexivity.
+Qed.
 
 (* ================================================================ non-vacuity *)
 (* function 0: factorial by a loop in a block (br_if out, br back); function 1: direct call, host call, tee,
@@ -978,3 +991,42 @@ Example ex_stuck_without_types :
   match exec Spec ex_host (fun _ => false) 10 100 0 0 ex_store (Build_frame Spec [] []) [Const 32 1; Bin (BInt 32 Add)] with
   | Trap TStuck _ => true | _ => false end = true.
 Proof. vm_compute. reflexivity. Qed.
+
+(* ================================================================ statements used by Properties/C03.v *)
+Theorem validated_no_stuck :
+  forall (T : tenv) (host : nat -> list Z -> hostres Z) (listened : nat -> bool) (maxdepth : nat)
+         (s : store Spec) (calls : list (nat * list Z)) (fuel : nat),
+  s_funcs s = map erase_func (t_funcs T) -> store_okb T s = true ->
+  (forall fa h tp tr args, nth_error (t_funcs T) fa = Some (TFHost h tp tr) ->
+     Forall2 (fun w v => 0 <= v < 2 ^ w) tp args ->
+     match host h args with
+     | HRet vs => Forall2 (fun w v => 0 <= v < 2 ^ w) tr vs
+     | HReenter g gargs =>
+         exists gi gtp gtl gb, nth_error (t_funcs T) g = Some (TFWasm gi gtp tr gtl gb) /\
+                               Forall2 (fun w v => 0 <= v < 2 ^ w) gtp gargs
+     | _ => True
+     end) ->
+  Forall (fun c => exists fd, nth_error (t_funcs T) (fst c) = Some fd /\
+                              Forall2 (fun w v => 0 <= v < 2 ^ w) (fst (tsig fd)) (snd c)) calls ->
+  let r := run_calls Spec host listened maxdepth fuel s calls in
+  ~ In (RTrap TStuck) (snd r) /\
+  s_funcs (fst r) = map erase_func (t_funcs T) /\ store_okb T (fst r) = true.
+Proof.
+  intros T host listened maxdepth s calls fuel Hf Hb Hhost Hcalls r.
+  destruct (run_calls_typed host listened maxdepth T Hhost fuel calls s (conj Hf Hb) Hcalls) as [H1 H2].
+  fold r in H1, H2. split; [|exact H1].
+  intros Hin. rewrite Forall_forall in H2. exact (H2 _ Hin eq_refl).
+Qed.
+
+Theorem validated_call_typed :
+  forall (T : tenv) (host : nat -> list Z -> hostres Z) (listened : nat -> bool) (maxdepth : nat),
+  host_ok host T ->
+  forall fuel (s : store Spec) fa fd args,
+  store_ok T s -> nth_error (t_funcs T) fa = Some fd -> Forall2 wfv (fst (tsig fd)) args ->
+  store_ok T (fst (call_export Spec host listened maxdepth fuel s fa args)) /\
+  match snd (call_export Spec host listened maxdepth fuel s fa args) with
+  | RVals vs => Forall2 wfv (snd (tsig fd)) vs
+  | RTrap t => t <> TStuck
+  | RFuel => True
+  end.
+Proof. intros T host listened maxdepth Hh fuel s fa fd args. exact (call_export_typed host listened maxdepth T Hh fuel s fa fd args). Qed.
